@@ -945,3 +945,42 @@ mutant('c20-tokenize-no-halving', ['C20'], 'bfg9000/shell/windows.py',
 twin('c09-twin-reset-order', ['C09'], ENVF,
      "        super().clear()\n        super().update(self.initial)\n        self._changes = {}",
      "        self._changes = {}\n        super().clear()\n        super().update(self.initial)")
+
+# ---------------------------------------------------------------- round 8/9
+# one mutant per clause added from the breakages of rounds 8 and 9
+mutant('r8-overescape-hash', ['C01'], MK,
+       "        elif syntax in [Syntax.shell, Syntax.clean]:\n"
+       "            return result",
+       "        elif syntax in [Syntax.shell, Syntax.clean]:\n"
+       "            return result.replace('#', '\\\\#')", 'over-escaped')
+mutant('r8-hash-via-to_json', ['C12'], BPF,
+       "        return hash(self.suffix)",
+       "        return hash(tuple(self.to_json()))", 'HASH-EQ')
+mutant('r8-pc-split-no-escapes', ['C17'], 'bfg9000/tools/pkg_config.py',
+       "escapes=True", "escapes=False", 'PC-READBACK')
+mutant('r8-libdir-in-prefix', ['C15'], 'bfg9000/platforms/posix.py',
+       "PosixPath('lib/', IRoot.exec_prefix)",
+       "PosixPath('lib/', IRoot.prefix)", 'install_dirs')
+mutant('r8-link-to-real-file', ['C14'], 'bfg9000/tools/cc/linker.py',
+       "CopyFile(context, output.link, output.soname, mode='symlink')",
+       "CopyFile(context, output.link, output, mode='symlink')",
+       'link->soname')
+mutant('r8-lib-re-unanchored', ['C16'], 'bfg9000/tools/cc/linker.py',
+       "'(?:' + '|'.join(lib_formats) + ')$'",
+       "'|'.join(lib_formats) + '$'", 'whole-name-anchored')
+mutant('r8-dotdot-substring', ['C18'], 'bfg9000/builtins/file_types.py',
+       "    if dist and path.root == Root.srcdir:",
+       "    if dist and path.root == Root.srcdir and '..' not in "
+       "path.suffix:", 'PATH-COMPONENTWISE')
+mutant('r8-no-reset-when-lazy', ['C09'], 'bfg9000/build.py',
+       "    if regenerating:\n        env.reload()",
+       "    if regenerating is Regenerating.true:\n        env.reload()",
+       'reload-for-every')
+mutant('r9-global-flags-order', ['C16', 'C06'], CP,
+       "compiler.global_flags + compiler.flags(gopts, mode='global')",
+       "compiler.flags(gopts, mode='global') + compiler.global_flags",
+       'global-flags-order')
+mutant('r8-oldest-output-max', ['C08'], FND,
+       "         min(_path.getmtime_ns(i, context.env.base_dirs, strict=False)",
+       "         max(_path.getmtime_ns(i, context.env.base_dirs, strict=False)",
+       'newest-input-vs-oldest-output')
